@@ -94,11 +94,12 @@ PROPS['C19']['assumptions'] = PROPS['C19']['assumptions'] + [
 PROPS['C18'] = dict(engine='faults', level='fault_enumeration', quick={}, thorough={},
                     foot=['C01.sessionOnlyByCredential', 'C01.otherBrowserUntouched', 'C02.primaryOnlyParks', 'C03.noLoginWhileBlocked', 'C03.middlewareBlocks', 'C13.changeAuthorised',
                           'C19.noAutoLoginUnderConfirm', 'C19.neverOverwrites', 'C19.invalidCreatesNothing'],
-                    technique='fault injection at every backend call of requests inside random scenarios; each faulted step is judged by TLC (spec/Trace.tla) against the C18 clauses of spec/Props.tla with the fault-free specification step as the reference',
+                    technique='TLA+ fault model (spec/Authboss.tla: every backend call site of every flow, the failing call has no effect and the handler stops the way the code at that site does) model-checked by TLC against the C18 clauses for every call index x error kind x error handler x response mode (fault families of spec/MC.tla); on the code: TLC fault behaviours, scripted and random scenarios with a failure injected at every backend call, each faulted step judged by TLC (spec/Trace.tla) against the clauses, with the fault-free specification step as the reference, and compared with the fault model',
                     assumptions=['backends = harness store (Load/Save/Create/LoadBy*Selector/remember-token calls/OAuth2 calls), hasher, view and mail renderer, SMS sender, mailer, provider lookup; error kinds: generic I/O error at every call, ErrUserNotFound at load/save calls, ErrTokenNotFound at UseRememberToken',
                                  'both the shipped log-only error handler and a 500-writing one are configured (random per scenario)',
                                  'lock.Middleware / confirm.Middleware document that they panic when the user cannot be loaded; in the harness chain they sit behind Middleware2, which has already loaded and cached the user, so that documented panic is not reachable and any panic is a violation',
-                                 'the specification has no fault model: a faulted step is not compared for conformance, only against the fault clauses and the fault-tolerant general clauses'])
+                                 'the verdict on a faulted step comes from the fault clauses and the fault-tolerant general clauses; a difference between the observed faulted step and the fault model (or between the backend calls of a fault-free step and the modelled call protocol) is counted in the evidence as advisory, because no property constrains which calls a request makes',
+                                 'fault families: MaxDepth 3 (quick) / 4-5 (thorough); the invariant CallsBound shows no modelled request makes more backend calls than the indices enumerated'])
 
 PROPS['C16'] = dict(engine='ni', level='model_checking', foot=[], quick={}, thorough={},
                     technique='non-interference as a TLA+ state invariant over the pure step function Apply (TLC, every reachable state of the lock/recover/otp/login families); on the code: forked paired replay (snapshot, request A, restore, request B) with byte-level comparison of everything the client observes',
